@@ -229,7 +229,7 @@ func parseConfig(s string) (*config, error) {
 		c.buffer = true
 		c.backing = m[2]
 		c.aged, _ = strconv.Atoi(m[3])
-		c.max = 64
+		c.max = 4
 		if m[1] != "" {
 			c.max, _ = strconv.ParseInt(m[1], 10, 64)
 		}
